@@ -33,7 +33,7 @@ func errShape(msg string) string {
 }
 
 var cannotUseRe = regexp.MustCompile(`cannot use .*? \((?:variable|map index expression|value|constant)[^)]* of `)
-var qualStarRe = regexp.MustCompile(`\*\*[a-z0-9]+\.X`)
+var qualStarRe = regexp.MustCompile(`\*\*(?:"[^"]+"|[a-z0-9]+)\.X`)
 
 func c01FailKey(f e1Failure) string {
 	return fmt.Sprintf("%s|%s", f.Case.Tags["plugin"], errShape(firstErrorLine(f.Output)))
@@ -192,6 +192,27 @@ func checkC01(tier string) {
 			continue
 		}
 		cases = append(cases, c01ListCases(idf, t)...)
+	}
+	// import-sensitive programs, each alone in its package (in a batch another case
+	// would use the same import and mask an unused or missing one)
+	{
+		st := map[string]*Ty{}
+		for _, x := range append(structTys(), namedBasics()...) {
+			st[x.Expr] = x
+		}
+		for _, name := range []string{"ext.Pub", "ext.Priv", "ext.Cmp", "ext.Pt", "ext.Level", "ext2.Pub", "Two"} {
+			base := st[name]
+			for _, t := range []*Ty{base, ptrOf(base), sliceOf(base), fieldForm(base), fieldForm(ptrOf(base)), fieldForm(mapOf(basicTy("string"), base))} {
+				for _, pl := range recPlugins {
+					if supported(t, pl) {
+						c := c01RecCase(idf(), t, pl, "closure")
+						c.Isolated = true
+						c.Tags["form"] = "alone-in-package"
+						cases = append(cases, c)
+					}
+				}
+			}
+		}
 	}
 	// three-level nesting: each inner result only becomes typeable one pass later
 	for _, k := range leaves(allBasics) {
